@@ -13,7 +13,9 @@ THEOREMS = ['WV.C07.corr_linear', 'WV.C07.padIdx_linear', 'WV.C07.afb1dOne_symme
             'WV.C07D.lin_gather', 'WV.C07D.sfb1dCh_linear', 'WV.C07D.afb1dAtrousOne_linear', 'WV.C07D.colfilter1_linear', 'WV.C07D.coldfilt1_linear', 'WV.C07D.colifilt1_linear',
             'WV.C07M.sfb1dT_total', 'WV.C07M.AFB2D_forward_channels', 'WV.C07M.AFB2D_backward_channels', 'WV.C07M.AFB2D_forward_zero_channels', 'WV.C07M.SFB2D_forward_channels', 'WV.C01M.DWTForward_multi', 'WV.C13M.SWTForward_multi', 'WV.C10M.DWTInverse_multi_eq_waverec2',
             'WV.C07L.alongW_lin', 'WV.C07L.alongH_lin', 'WV.C07L.afb1dOne_some_pos', 'WV.C07L.AFB2D_forward_rep', 'WV.C07L.DWTForward_rep',
-            'WV.C07L.DWTForward_linear', 'WV.C07L.DWTForward_raises_by_shape', 'WV.C07L.DWTForward_slice']
+            'WV.C07L.DWTForward_linear', 'WV.C07L.DWTForward_raises_by_shape', 'WV.C07L.DWTForward_slice',
+            'WV.C07S.genT_total', 'WV.C07S.genT_none', 'WV.C07S.gen2d_rep', 'WV.C07S.afb1dAtrousOne_some_pos', 'WV.C07S.SWTForward_rep',
+            'WV.C07S.SWTForward_linear', 'WV.C07S.SWTForward_raises_by_shape', 'WV.C07S.SWTForward_slice']
 TABLE = dict(I1); TABLE.update(I2)
 
 
